@@ -42,7 +42,10 @@ implement ToString for Pt {
 }
 """
 
-CONTEXTS = ["fn", "lambda", "task", "while", "for", "arm", "if", "block"]
+CONTEXTS = ["fn", "lambda", "task", "while", "for", "arm", "if", "block",
+            # expression positions of statements (nothing is on the operand stack there): the
+            # checker and the code generator must agree on which loop / function encloses them
+            "whilecond", "foriter", "ifcond", "scrut", "letinit"]
 
 
 def wrap(kind, k, inner):
@@ -65,6 +68,16 @@ def wrap(kind, k, inner):
         return "var v%d = %d\nif v%d > 0 {\n%s\n}" % (k, k + 1, k, ind)
     if kind == "block":
         return "var v%d = %d\n{\n%s\n}" % (k, k, ind)
+    if kind == "whilecond":
+        return "var v%d = 0\nwhile {\n  v%d += 1\n%s\n  v%d < 2\n} {\n}" % (k, k, ind, k)
+    if kind == "foriter":
+        return "var v%d = %d\nfor it%d in {\n%s\n  2\n} {\n}" % (k, k, k, ind)
+    if kind == "ifcond":
+        return "var v%d = %d\nif {\n%s\n  v%d >= 0\n} {\n}" % (k, k, ind, k)
+    if kind == "scrut":
+        return "var v%d = %d\nmatch {\n%s\n  v%d\n} {\n  _ -> {}\n}" % (k, k, ind, k)
+    if kind == "letinit":
+        return "var v%d = %d\nlet w%d = {\n%s\n  1\n}" % (k, k, k, ind)
     raise ValueError(kind)
 
 
@@ -167,6 +180,9 @@ def run(ctx):
     for n in (1, 2, 3):
         for c in itertools.product(CONTEXTS, repeat=n):
             chains.append(c)
+    if ctx.quick:
+        d3 = [c for c in chains if len(c) == 3]
+        chains = [c for c in chains if len(c) < 3] + r.sample(d3, 700)
     progs = []
     for c in chains:
         ps = payloads(min(len(c), 3))
@@ -213,8 +229,8 @@ def run(ctx):
     ctx.coverage(
         evaluations=len(meta) + nc,
         distinct_nontrivial=accepted,
-        rule="case = (chain of enclosing contexts, payload); all chains up to depth 2 x all payloads (depth 3: 6 sampled payloads per "
-             "chain in quick, all in thorough); distinct = programs the checker ACCEPTED, each of which was also compiled and executed",
+        rule="case = (chain of enclosing contexts, payload); all chains up to depth 2 x all payloads (depth 3: 700 sampled chains x 6 sampled payloads "
+             "in quick, all in thorough); distinct = programs the checker ACCEPTED, each of which was also compiled and executed",
         samples=[{"case": meta["n000010"][0], "program": meta["n000010"][1][len(DECLS):]}],
         programs=len(meta),
         accepted=accepted,
